@@ -266,11 +266,24 @@ def referencedCols (c : Case) : List Nat :=
 /-- `where-null-partition-empty` (C02/C03): some column of the WHERE clause is NULL in every row of one partition of
     the realisation, so the predicate has type Null there (`Filter::Null`) and every selected column is replaced by the
     `Empty` placeholder, which exists only for non-nullable primitive types. -/
+def isNullCols : Expr → List Nat
+  | .isNull (.col i) => [i]
+  | .isNotNull (.col i) => [i]
+  | .cmp _ l r => isNullCols l ++ isNullCols r
+  | .and l r => isNullCols l ++ isNullCols r
+  | .or l r => isNullCols l ++ isNullCols r
+  | .not e => isNullCols e
+  | .isNull e => isNullCols e
+  | .isNotNull e => isNullCols e
+  | .arith _ l r => isNullCols l ++ isNullCols r
+  | _ => []
+
+/-- In some partition the WHERE clause (or a part of it) is planned as a constant: a column it reads is NULL in every row
+    there (type Null), or it applies IS [NOT] NULL to a column without any NULL there (constant expansion). -/
 def whereNullPartition (c : Case) (r : Real) : Bool :=
   let parts := (splitRows r.split c.rows).filter (fun p => !p.isEmpty)
-  ((c.pred.map exprCols).getD []).any fun k => parts.any (fun p => p.all (fun row => row.getD k .null == .null))
-
-
+  ((c.pred.map exprCols).getD []).any (fun k => parts.any (fun p => p.all (fun row => row.getD k .null == .null))) ||
+  ((c.pred.map isNullCols).getD []).any (fun k => parts.any (fun p => p.all (fun row => row.getD k .null != .null)))
 
 /-- `sum-sentinel` (C04/C06/C02): some SUM / MIN / MAX over an integer column has a partial result — over the rows of
     one group in one partition of this realisation, or over the whole group — equal to i64::MAX. -/
@@ -492,9 +505,10 @@ def classifyGrp (c : Case) (spec : Res (List Row)) (r : Real) : String :=
         if sentinelPartial c r.split then "sum-sentinel"
         else if c.kind = .grp && nullIntKey c && r.split.length ≥ 2 &&
             (match rowsExplained c cc ac s (regroup c.sel out) with | some _ => true | none => false) then "groupby-null-key-order"
-        else if c.kind = .grp && keysTruncated c s out then "groupby-compressed-key-type"
+        else if c.kind = .grp && (keysTruncated c s out || keysTruncated c (nullCounts cc s) out) then "groupby-compressed-key-type"
         -- both at once: groups emitted twice AND truncated keys (a layout with NULL keys and compressed key columns)
-        else if c.kind = .grp && nullIntKey c && r.split.length ≥ 2 && keysTruncated c s (regroup c.sel out) then "groupby-null-key-order"
+        else if c.kind = .grp && nullIntKey c && r.split.length ≥ 2 &&
+            (keysTruncated c s (regroup c.sel out) || keysTruncated c (nullCounts cc s) (regroup c.sel out)) then "groupby-null-key-order"
         -- C04's classifier of this entry is the trigger alone (dropped partitions, misaligned aggregates, …)
         else if absentSelected c r.split then "groupby-absent-column"
         else ""
